@@ -76,7 +76,7 @@ const char *mdict_get_str(struct MDict *dict, const char *key, unsigned klen)
 
 bool mdict_put_str(struct MDict *dict, const char *key, unsigned klen, const char *val, unsigned vlen)
 {
-	char *kptr, *vptr = NULL;
+	char *kptr = NULL, *vptr = NULL;
 	struct MDictElem *el;
 
 	if (val) {
@@ -93,20 +93,25 @@ bool mdict_put_str(struct MDict *dict, const char *key, unsigned klen, const cha
 	} else {
 		kptr = cx_alloc(dict->cx, klen + 1);
 		if (!kptr)
-			return false;
+			goto fail;
 		memcpy(kptr, key, klen);
 		kptr[klen] = 0;
 
 		el = cx_alloc(dict->cx, sizeof(*el));
 		if (!el)
-			return false;
+			goto fail;
 
 		mbuf_init_fixed_reader(&el->key, kptr, klen);
 		mbuf_init_fixed_reader(&el->val, vptr, vlen);
 		if (!cbtree_insert(dict->tree, el))
-			return false;
+			goto fail;
 	}
 	return true;
+fail:
+	if (el) cx_free(dict->cx, el);
+	if (kptr) cx_free(dict->cx, kptr);
+	if (vptr) cx_free(dict->cx, vptr);
+	return false;
 }
 
 bool mdict_del_key(struct MDict *dict, const char *key, unsigned klen)
@@ -237,6 +242,8 @@ bool mdict_urldecode(struct MDict *dict, const char *str, unsigned len)
 		if (el) {
 			cx_free(dict->cx, mbuf_data(&el->val));
 			mbuf_init_fixed_reader(&el->val, v, vlen);
+			/* key is already stored in the element */
+			cx_free(dict->cx, k);
 		} else {
 			el = cx_alloc(dict->cx, sizeof(*el));
 			if (!el)
